@@ -168,6 +168,20 @@ def corpus():
                 [[None, None, None, None, None], [None, None, 7.0, 8.0, 9.0], [None, 10.0, 11.0, 12.5, 13.0], [None, 2.0, 3.0, 4.0, 5.5],
                  [None, 6.0, 7.0, 1.0, 2.5]], ["affine", [2.0, 1.0, 0.5, -3.0]], "linear", False, {}, "corpus-pg-nan-L-margin"),
           mk_mask_large([0.0, 40.0, 55.0, 30.0, -10.0, 20.0], [0.0, -5.0, 30.0, 60.0, 35.0, 20.0], (-12.0, 57.0, -7.0, 62.0), (530, 620)),
+          # a requested region with west > east: refused (ValueError), whatever the data region looks like
+          mk_pg([0.0, 1.0, 2.0, 3.0], [10.0, 20.0, 30.0], [[1.0, 2.0, 3.0, 4.0], [5.0, 6.0, 7.0, 8.0], [9.0, 10.0, 11.0, 12.5]],
+                ["affine", [2.0, 1.0, 0.5, -3.0]], "linear", False, {"region": [6.0, 2.0, 3.0, 11.0]}, "corpus-pg-bad-region"),
+          mk_pg([0.0, 1.0, 2.0, 3.0], [10.0, 20.0, 30.0], [[1.0, 2.0, 3.0, 4.0], [5.0, 6.0, 7.0, 8.0], [9.0, 10.0, 11.0, 12.5]],
+                ["affine", [2.0, 1.0, 0.5, -3.0]], "nearest", True, {"region": [2.0, 6.0, 11.0, 3.0], "spacing": 1.0}, "corpus-pg-bad-region"),
+          # antialiasing with a requested sub-region and spacing: the block means are taken over the region of the DATA
+          mk_pg([0.0, 1.0, 2.0, 3.0, 4.0, 5.0], [10.0, 20.0, 30.0, 40.0, 50.0],
+                [[1.0, 2.0, 3.0, 4.0, 5.0, 6.0], [5.0, 6.0, 7.0, 8.0, 2.0, 1.0], [9.0, 10.0, 11.0, 12.5, 3.0, 0.5], [4.0, 3.0, 2.0, 1.0, 0.0, -1.0],
+                 [7.0, 7.5, 8.0, 8.5, 9.0, 9.5]], ["affine", [2.0, 1.0, 0.5, -3.0]], "nearest", True, {"region": [2.5, 9.25, 3.75, 19.5], "spacing": (3.0, 2.5)},
+                "corpus-pg-antialias-subregion"),
+          mk_pg([0.0, 1.0, 2.0, 3.0, 4.0, 5.0], [10.0, 20.0, 30.0, 40.0, 50.0],
+                [[1.0, 2.0, 3.0, 4.0, 5.0, 6.0], [5.0, 6.0, 7.0, 8.0, 2.0, 1.0], [9.0, 10.0, 11.0, 12.5, 3.0, 0.5], [4.0, 3.0, 2.0, 1.0, 0.0, -1.0],
+                 [7.0, 7.5, 8.0, 8.5, 9.0, 9.5]], ["affine", [2.0, 1.0, 0.5, -3.0]], "linear", True, {"region": [1.5, 10.5, 2.25, 21.0], "shape": (4, 5)},
+                "corpus-pg-antialias-subregion"),
           # known finding F1: Clough-Tocher overshoots the input range even with antialiasing
           mk_pg([-3.5, -2.5, -1.5, -0.5, 0.5, 1.5], [1.5, 2.5, 3.5, 4.5],
                 [[8.25, -0.5, 8.0, -2.0, -2.75, -0.25], [0.5, 6.75, -0.75, -1.25, 2.0, 5.5], [-6.5, -7.75, 3.25, -3.75, -4.5, -3.5],
@@ -313,7 +327,7 @@ def impl(case):
             ge, gn, vals, proj, method, antialias, kw = a
             f = PROJS[proj[0]](proj[1])
             arr = np.array([[np.nan if v is None else v for v in row] for row in vals])
-            da = xr.DataArray(arr, coords={"northing": np.array(gn), "easting": np.array(ge)}, dims=("northing", "easting"), name="topo")
+            da = xr.DataArray(arr, coords={"northing": np.array(gn), "easting": np.array(ge)}, dims=("northing", "easting"), name=_pg_name(ge, gn))
             out = vd.project_grid(da, f, method=method, antialias=antialias, **kw)
             return {"name": out.name, "dims": list(out.dims), "east": [float(v) for v in out.coords[out.dims[1]].values],
                     "north": [float(v) for v in out.coords[out.dims[0]].values],
@@ -322,6 +336,11 @@ def impl(case):
     if C.is_err(r) or case["fn"] in ("mask", "mask_large"):
         return r
     return ["pg", r]
+
+
+def _pg_name(ge, gn):
+    """Every fifth grid is a nameless DataArray (arithmetic between arrays drops the name): the result is then called "scalars"."""
+    return None if (3 * len(ge) + len(gn)) % 5 == 0 else "topo"
 
 
 def _degenerate_antialias(case, io):
@@ -333,6 +352,10 @@ def _degenerate_antialias(case, io):
 def compare(case, io, mo):
     if _degenerate_antialias(case, io):
         return "amb"
+    if case["fn"] == "pg" and _bad_region(case):
+        if C.is_err(io) and C.is_err(mo) and io[1] == mo[1] == "ValueError":
+            return "ok"
+        return f"diff:an invalid requested region: implementation {io if C.is_err(io) else 'returned a grid'}, model {mo if C.is_err(mo) else 'returned lines'}"
     if C.is_err(io):
         return "diff:implementation failed: " + io[1]
     if case["fn"] == "mask_large":
@@ -362,10 +385,17 @@ def compare(case, io, mo):
     return "ok"
 
 
+def _bad_region(case):
+    reg = case["args"][6].get("region")
+    return reg is not None and (reg[0] > reg[1] or reg[2] > reg[3])
+
+
 def oracle(case, io):
     a = case["args"]
     if _degenerate_antialias(case, io):
         return None
+    if case["fn"] == "pg" and _bad_region(case):
+        return None if C.is_err(io) and io[1] == "ValueError" else "a requested region with west > east or south > north was not refused with a ValueError"
     if C.is_err(io):
         return "failed: " + io[1]
     if case["fn"] == "mask_large":
@@ -387,8 +417,8 @@ def oracle(case, io):
         return None
     ge, gn, vals, proj, method, antialias, kw = a
     r = io[1]
-    if r["name"] != "topo" or r["dims"] != ["northing", "easting"]:
-        return "project_grid lost the DataArray's name / dims"
+    if r["name"] != (_pg_name(ge, gn) or "scalars") or r["dims"] != ["northing", "easting"]:
+        return f"project_grid lost the DataArray's name / dims (a nameless grid comes back as 'scalars'): {r['name']!r} {r['dims']}"
     f = PROJS[proj[0]](proj[1])
     cells = [(x, y, vals[i][j]) for i, y in enumerate(gn) for j, x in enumerate(ge) if vals[i][j] is not None]
     pe, pn = f(np.array([c[0] for c in cells]), np.array([c[1] for c in cells]))
@@ -421,6 +451,27 @@ def oracle(case, io):
                 return f"NaN inside the convex hull of the projected data points at ({x}, {y})"
             if v is not None and (antialias or method in ("linear", "nearest")) and not (vmin - 1e-9 <= v <= vmax + 1e-9):
                 return f"value {v} outside the range [{vmin}, {vmax}] of the input"
+    if antialias and method in ("nearest", "linear") and ("region" in kw or "spacing" in kw or "shape" in kw):
+        # the documented pipeline by hand, from public pieces: block means of the projected cells in blocks of the OUTPUT spacing laid over the
+        # region of the projected DATA (not the requested output region), interpolated onto the output grid, masked by the hull of the projected cells
+        import warnings
+        with warnings.catch_warnings():
+            warnings.simplefilter("ignore")
+            dreg = vd.get_region((pe, pn))
+            oreg = tuple(kw.get("region", dreg))
+            oshape = tuple(kw.get("shape", (len(gn), len(ge))))
+            osp = kw.get("spacing", vd.coordinates.shape_to_spacing(oreg, oshape))
+            try:
+                bc, bd = vd.BlockReduce(np.mean, spacing=osp, region=dreg).filter((pe, pn), np.array([c[2] for c in cells]))
+                gr = (vd.KNeighbors() if method == "nearest" else vd.Linear()).fit(bc, bd).grid(region=oreg, spacing=osp, data_names=["v"])
+                exp = vd.convexhull_mask((pe, pn), grid=gr).v.values
+            except Exception:  # noqa: BLE001  (degenerate block means: outside the property, see _degenerate_antialias)
+                exp = None
+        if exp is not None:
+            got = np.array([[np.nan if v is None else v for v in row] for row in r["values"]], dtype=float)
+            if got.shape != exp.shape or not np.allclose(got, exp, rtol=1e-9, atol=1e-9, equal_nan=True):
+                return ("with antialias=True and a requested region / spacing / shape the result is not the block means (blocks of the output spacing over "
+                        "the region of the projected data) interpolated onto the requested grid and masked by the hull of the projected cells")
     if proj[0] == "affine" and not antialias and not kw and all(c is not None for row in vals for c in row):
         pa = proj[1]
         exp_e = sorted(pa[0] * x + pa[1] for x in ge)
